@@ -280,3 +280,46 @@ def progress(fn):
         if not (advanced & cond_vars):
             bad.append(f"loop over {sorted(cond_vars)} advances none of its condition variables unconditionally")
     return bad
+
+
+def undeclared_uses(fn):
+    """C scoping: every variable read or assigned is a parameter or was declared earlier in an
+    enclosing block (a declaration inside a branch/loop body is not visible after it)."""
+    bad = []
+    params = {p.name.name for p in fn.parameters}
+
+    def uses(e, scope):
+        for n in walk(e):
+            if isinstance(n, ir.Variable) and n.name not in scope and n.name not in ("malloc", "realloc"):
+                bad.append(n.name)
+
+    def visit(stmt, scope):
+        if isinstance(stmt, ir.Block):
+            inner = set(scope)
+            for s in stmt.statements:
+                visit(s, inner)
+            # a Block without its own braces (appended builder lines) shares the scope of its parent:
+            # tensora prints nested Blocks without braces, so declarations stay visible
+            scope |= inner
+        elif isinstance(stmt, ir.Declaration):
+            scope.add(stmt.name.name)
+        elif isinstance(stmt, ir.DeclarationAssignment):
+            uses(stmt.value, scope)
+            scope.add(stmt.target.name.name)
+        elif isinstance(stmt, ir.Assignment):
+            uses(stmt.value, scope)
+            uses(stmt.target, scope)
+        elif isinstance(stmt, ir.Branch):
+            uses(stmt.condition, scope)
+            visit(stmt.if_true, set(scope))
+            visit(stmt.if_false, set(scope))
+        elif isinstance(stmt, ir.Loop):
+            uses(stmt.condition, scope)
+            visit(stmt.body, set(scope))
+        elif isinstance(stmt, ir.Return):
+            uses(stmt.value, scope)
+        elif isinstance(stmt, ir.Expression):
+            uses(stmt, scope)
+
+    visit(fn.body, set(params))
+    return sorted(set(bad))
